@@ -278,6 +278,33 @@ class SymBackend(BackendBase):
         self.holes.append(("uf", name, u, [list(d) for d in domains], ft))
         return u
 
+    # ---- random number generator (stubbed: every answer symbolic)
+    def install_rng(self):
+        """native side patches random.randint / random.sample with the model's answers"""
+
+    def rng_rewind(self):
+        """make the stub give the same answers again (same RNG stream)"""
+        self.I.rng_replay = [e[:2] for e in self.I.rng_log]
+        self._rng_first = list(self.I.rng_log)
+        self.I.rng_log = []
+
+    def oracle_ints(self, name, n):
+        """pick(r): an arbitrary integer k with 0 <= k <= r on each call (at most n calls)"""
+        B = self
+        terms = [z3.Int(f"h_{name}_{j}") for j in range(n)]
+        self.holes.append(("intseq", name, terms))
+        state = {"j": 0}
+
+        def pick(it, a, k):
+            j = state["j"]
+            state["j"] += 1
+            if j >= n:
+                raise HarnessError("oracle_ints exhausted")
+            t = terms[j]
+            B.ctx.assume(z3.And(t >= 0, t <= B.I.int_term(a[0])))
+            return SInt(t)
+        return P.NativeFunc(pick, "pick")
+
     def try_public_assoc(self, verts, links):
         """native side only: reach the installed pre-state through the public API"""
 
@@ -357,6 +384,11 @@ class SymBackend(BackendBase):
 
     def len_(self, lst):
         return self.I.list_len(lst)
+
+    def str_startswith(self, s, prefix):
+        if isinstance(s, str):
+            return s.startswith(prefix)
+        return self.I.wrapb(z3.PrefixOf(z3.StringVal(prefix), self.I.str_term(s)))
 
     def nodup(self, lst):
         es = lst.elems
@@ -461,6 +493,8 @@ class SymBackend(BackendBase):
             elif kind == "intlist":
                 n = ev(h[2]).as_long()
                 out[name] = [ev(t).as_long() for t in h[3][:n]]
+            elif kind == "intseq":
+                out[name] = [ev(t).as_long() for t in h[2]]
             elif kind == "uf":
                 u, domains, ft = h[2], h[3], h[4]
                 table = []
@@ -478,6 +512,17 @@ class SymBackend(BackendBase):
                     f = ev(ft).as_long()
                     spec["fault"] = f if f >= 0 else None
                 out[name] = spec
+        log = getattr(self, "_rng_first", None) or self.I.rng_log
+        if log:
+            rng = []
+            for e in log:
+                if e[0] == "randint":
+                    rng.append(["randint", ev(e[1]).as_long()])
+                else:
+                    kk = e[2]
+                    kv = ev(kk.term).as_long() if isinstance(kk, SInt) else kk
+                    rng.append(["sample", [ev(t).as_long() for t in e[1][:kv]]])
+            out["$rng"] = rng
         return out
 
     def idmap(self):
